@@ -1,16 +1,8 @@
 package main
 
-type CapModel struct{}
-
-func NewCapModel() *CapModel         { return &CapModel{} }
-func (c *CapModel) Clone() *CapModel { return &CapModel{} }
-func (c *CapModel) Hash() string     { return "" }
 
 
-func (o Op) codeCaps(k int) (string, bool)                       { return "", false }
-func (m *Model) applyCaps(o Op, pr *Pred) (string, bool)         { return "", false }
 func (o Op) codeHostSvc(k int) (string, bool)                    { return "", false }
 func (m *Model) applyHostSvc(o Op, pr *Pred) (string, bool)      { return "", false }
 
-func (g *Gen) capOp() Op      { return g.storageOp() }
 func (g *Gen) hostSvcOp() Op  { return g.storageOp() }
